@@ -4,9 +4,11 @@
 //! usage: qv <property> [--tier quick|thorough] [--seed N] [--shard i]
 //!           [--nshards n] [--out FILE] [--case K] [--scale F] [--build TAG]
 
+mod msgbuild;
 mod names;
 mod panicmon;
 mod props;
+mod rdataref;
 mod report;
 mod rng;
 mod wire;
